@@ -73,19 +73,35 @@ class Project:
             txt = txt[: mo.start()] + propval + txt[mo.end() :]
         return txt
 
-    def dfs(self, target_name, state):
+    def dfs(self, target_name, state, done):
+        """Depth first walk over the dependencies of a target.
+
+        state is the set of targets on the current path, done is the list
+        of finished targets, each one after all of its dependencies.
+        """
         state.add(target_name)
         target = self.get_target(target_name)
-        for dep in target.dependencies:
+        for dep in sorted(target.dependencies):
             if dep in state:
                 raise TaskError(
                     f"Dependency loop detected {target_name} -> {dep}"
                 )
-            self.dfs(dep, state)
+            if dep not in done:
+                self.dfs(dep, state, done)
+        state.remove(target_name)
+        done.append(target_name)
 
     def check_target(self, target_name):
-        state = set()
-        self.dfs(target_name, state)
+        self.target_sequence([target_name])
+
+    def target_sequence(self, target_names):
+        """Determine the targets to run: the given targets and all their
+        dependencies, every target once, after its dependencies."""
+        done = []
+        for target_name in target_names:
+            if target_name not in done:
+                self.dfs(target_name, set(), done)
+        return done
 
     def dependencies(self, target_name):
         assert type(target_name) is str
@@ -200,21 +216,13 @@ class TaskRunner:
             self.logger.info("No targets to run!")
             return
 
-        # Check for loops:
-        for target in target_list:
-            project.check_target(target)
-
-        # Calculate all dependencies:
-        # TODO: make this understandable:
-        target_list = set.union(
-            *[project.dependencies(t) for t in target_list]
-        ).union(set(target_list))
+        # Check for loops and calculate all dependencies, in run order:
+        target_list = project.target_sequence(target_list)
 
         # Lookup actual targets:
         target_list = [
             project.get_target(target_name) for target_name in target_list
         ]
-        target_list.sort()
 
         self.logger.info(f"Target sequence: {target_list}")
 
